@@ -245,7 +245,8 @@ func Load() (*Loaded, error) {
 		Sizes:    types.SizesFor("gc", "amd64"),
 	}
 	for _, ip := range []string{ModPath, ModPath + "/log", ModPath + "/mmap",
-		"io", "io/ioutil", "strconv", "bytes", "bufio", "sort", "strings", "encoding/binary", "unicode/utf8"} {
+		"io", "io/ioutil", "strconv", "bytes", "bufio", "sort", "strings", "encoding/binary", "unicode/utf8",
+		"internal/oserror", "io/fs", "path/filepath"} {
 		p.InitPkgs[ip] = true
 	}
 	for _, sp := range spkgs {
